@@ -184,7 +184,7 @@ fn check_blocks(blocks: &[(usize, usize)], sink: &Sink) -> u64 {
 
 const CONDITIONS: &[&str] = &["plain", "with \"double\" quotes", "back\\slash \\n \\u0041", "tab\there", "é ≤ 😀", "line1\nline2", "{\"json\": [1, 2]}", "  padded  "];
 const CONTENTS: &[&str] = &["v1 = 1", "  v1 = \"é ≤\"  ", "\n\nv1\n\n  v2\t\n\n", "'single' \"double\" \\back \\\" \u{8}", "", "line1\r\nline2 v3", "{\"a\": \"\\u00e9\"}"];
-const PATTERNS: &[Option<&str>] = &[None, Some(r"(?P<value>v\d+)"), Some(r"v\d+"), Some(r"nomatch\d")];
+const PATTERNS: &[Option<&str>] = &[None, Some(r"(?P<value>v\d+)"), Some(r"v\d+"), Some(r"nomatch\d"), Some(r"(?P<value>\s+v\d)"), Some(r"\S+\s*$")];
 
 #[derive(Clone, Debug, PartialEq, Eq, Hash)]
 struct Verbatim {
@@ -235,6 +235,31 @@ fn check_verbatim(c: &Verbatim, sink: &Sink) {
     if c.condition == 1 {
         sink.sample(|| json!({"file": text, "expected_user_message": want_user}));
     }
+}
+
+// ---- larger block sets under three delivery orders (capped) -------------------------------------
+
+fn check_large(k: usize, fault_at: Option<usize>, sink: &Sink) -> u64 {
+    let all = behaviours();
+    let index = |name: &str| all.iter().position(|b| *b == name).unwrap();
+    let mut n = 0;
+    let blocks: Vec<(usize, usize)> = (0..k).map(|i| (if Some(i) == fault_at { index("h401-json") } else if i % 2 == 0 { index("ok-upper") } else { index("not-valid") }, i % 2)).collect();
+    for (name, answers) in [("identity", vec![]), ("reverse", (0..k).rev().collect::<Vec<_>>()), ("rotation", vec![1; k.saturating_sub(1)])] {
+        let nonce = format!("L{}", NONCE.fetch_add(1, Ordering::Relaxed));
+        let (files, plans) = build(&blocks, &nonce);
+        let mut choices = std::collections::HashMap::new();
+        choices.insert("joinset@check_ai#1".to_string(), answers);
+        let order: Vec<String> = files.iter().map(|f| f.0.clone()).collect();
+        sink.exec();
+        n += 1;
+        let (outcome, _, diverged) = librun::run_traced(&Input { files, choices, map_order: Some(order), ..Default::default() });
+        if diverged.is_some() && name != "identity" {
+            continue;
+        }
+        sink.outcome(format!("large:k={k}:{name}:{}", outcome.class()));
+        judge(&plans, &outcome, &nonce, &format!("{name} delivery order"), &json!({"large": k, "fault_at": fault_at}), sink);
+    }
+    n
 }
 
 // ---- whole-run faults: no key, connection refused -----------------------------------------------
@@ -309,6 +334,14 @@ pub fn run(cfg: &Cfg, sink: &Arc<Sink>) -> Report {
     }
     let total = cases.len();
     report.phase(engine::explore("verbatim transport", &format!("{total} cases (full product)"), Grid { cases, check: |c: &Verbatim, s: &Sink| check_verbatim(c, s) }, sink, cfg.threads, false));
+    let mut n = 0;
+    for k in [5usize, 8, 16] {
+        for fault_at in [None, Some(0), Some(k / 2), Some(k - 1)] {
+            n += check_large(k, fault_at, sink);
+        }
+    }
+    report.phase(Phase { name: "larger block sets (capped)".into(), states: n, transitions: n, max_depth: 1, exhaustive: false, bound: "k ∈ {5,8,16} × fault on {none, first, middle, last} × delivery order ∈ {identity, reverse, rotation}".into() });
+    report.cap("k ∈ {5,8,16}: only 3 delivery orders each");
     let n = whole_run_faults(sink);
     report.phase(Phase { name: "whole-run faults".into(), states: n, transitions: n, max_depth: 1, exhaustive: true, bound: "{no key, empty key, connection refused} × 3 block sets × all schedules".into() });
     report
@@ -316,7 +349,9 @@ pub fn run(cfg: &Cfg, sink: &Arc<Sink>) -> Report {
 
 pub fn replay(_cfg: &Cfg, input: &Value, sink: &Arc<Sink>) {
     set_env(&FakeAi::global().url, Some(KEY));
-    if input.get("whole_run_fault").is_some() {
+    if let Some(k) = input.get("large").and_then(Value::as_u64) {
+        check_large(k as usize, input["fault_at"].as_u64().map(|v| v as usize), sink);
+    } else if input.get("whole_run_fault").is_some() {
         whole_run_faults(sink);
     } else if let Some(c) = input.get("condition").and_then(Value::as_u64) {
         check_verbatim(&Verbatim { condition: c as usize, content: input["content"].as_u64().unwrap_or(0) as usize, pattern: input["pattern"].as_u64().unwrap_or(0) as usize }, sink);
